@@ -37,10 +37,9 @@ def export(dst):
 
 
 def cmd_import(ident, src):
-    for letter in ("A", "B"):
+    for letter in ("A", "B", "C", "D"):
         d = os.path.join(ROOT, "seeded", "%s-%s" % (ident, letter.lower()))
         if not os.path.exists(os.path.join(src, letter + ".diff")):
-            print("no %s.diff in %s" % (letter, src))
             continue
         os.makedirs(d, exist_ok=True)
         shutil.copy(os.path.join(src, letter + ".diff"), os.path.join(d, "patch.diff"))
